@@ -996,3 +996,99 @@ pub fn run_unsubscribe(rep: &mut mc::Report) -> (u64, Vec<Value>) {
     }
     (n, samples)
 }
+
+// ------------------------------------------------------------------------------------ typed results
+
+/// Every typed accessor against every value shape: what a call returns must equal what the server
+/// holds (the value that was set, as the untyped call and the server's own store report it).
+pub fn run_typed(rep: &mut mc::Report) -> (u64, Vec<Value>) {
+    let values: Vec<Value> = vec![
+        json!(1),
+        json!(-7),
+        json!(1.5),
+        json!("text"),
+        json!(""),
+        json!(true),
+        Value::Null,
+        json!([1, null, "x"]),
+        json!([]),
+        json!({"a": null, "b": {"c": 1}}),
+        json!({}),
+    ];
+    let mut n = 0u64;
+    let mut samples = vec![];
+    for (vi, v) in values.iter().enumerate() {
+        let rt = new_runtime();
+        let v2 = v.clone();
+        let res: Result<Vec<String>, String> = rt.block_on(async {
+            let rig = Rig::new().await?;
+            rig.gate.permits.add_permits(100_000);
+            let c = rig.client.clone();
+            let done: Arc<Mutex<Option<Result<Vec<String>, String>>>> = Arc::new(Mutex::new(None));
+            let d2 = done.clone();
+            let v = v2.clone();
+            tokio::spawn(async move {
+                let r: Result<Vec<String>, String> = async {
+                    let e = |x: ConnectionError| x.to_string();
+                    let mut bad = vec![];
+                    let mut check = |what: &str, got: String, want: String| {
+                        if got != want {
+                            bad.push(format!("{what}: returned {got}, the server holds {want}"));
+                        }
+                    };
+                    c.set("t/k".into(), v.clone()).await.map_err(e)?;
+                    c.cset("t/c".into(), v.clone(), 0).await.map_err(e)?;
+                    let held = format!("{:?}", Some(v.clone()));
+                    check("get_generic", format!("{:?}", c.get_generic("t/k".into()).await.map_err(e)?), held.clone());
+                    check("get::<Value>", format!("{:?}", c.get::<Value>("t/k".into()).await.map_err(e)?), held.clone());
+                    check("get::<Option<Value>>", format!("{:?}", c.get::<Option<Value>>("t/k".into()).await.map_err(e)?), format!("{:?}", Some(if v.is_null() { None } else { Some(v.clone()) })));
+                    let held_c = format!("{:?}", Some((v.clone(), 1u64)));
+                    check("cget_generic", format!("{:?}", c.cget_generic("t/c".into()).await.map_err(e)?), held_c.clone());
+                    check("cget::<Value>", format!("{:?}", c.cget::<Value>("t/c".into()).await.map_err(e)?), held_c);
+                    let mut kvs: Vec<(String, Value)> = c.pget::<Value>("t/?".into()).await.map_err(e)?.into_iter().map(|kv| (kv.key, kv.value)).collect();
+                    kvs.sort_by(|a, b| a.0.cmp(&b.0));
+                    check("pget::<Value>", format!("{kvs:?}"), format!("{:?}", vec![("t/c".to_owned(), v.clone()), ("t/k".to_owned(), v.clone())]));
+                    let mut kvs: Vec<(String, Value)> = c.pget_generic("t/?".into()).await.map_err(e)?.into_iter().map(|kv| (kv.key, kv.value)).collect();
+                    kvs.sort_by(|a, b| a.0.cmp(&b.0));
+                    check("pget_generic", format!("{kvs:?}"), format!("{:?}", vec![("t/c".to_owned(), v.clone()), ("t/k".to_owned(), v.clone())]));
+                    if let Some(i) = v.as_i64() {
+                        check("get::<i64>", format!("{:?}", c.get::<i64>("t/k".into()).await.map_err(e)?), format!("{:?}", Some(i)));
+                    }
+                    if let Some(s) = v.as_str() {
+                        check("get::<String>", format!("{:?}", c.get::<String>("t/k".into()).await.map_err(e)?), format!("{:?}", Some(s.to_owned())));
+                    }
+                    check("delete::<Value>", format!("{:?}", c.delete::<Value>("t/k".into()).await.map_err(e)?), held.clone());
+                    check("get::<Value> after delete", format!("{:?}", c.get::<Value>("t/k".into()).await.map_err(e)?), "None".into());
+                    check("delete::<Value> of an absent key", format!("{:?}", c.delete::<Value>("t/k".into()).await.map_err(e)?), "None".into());
+                    check("delete_generic", format!("{:?}", c.delete_generic("t/c".into()).await.map_err(e)?), held.clone());
+                    c.set("t/p".into(), v.clone()).await.map_err(e)?;
+                    let kvs: Vec<(String, Value)> = c.pdelete::<Value>("t/?".into(), false).await.map_err(e)?.into_iter().map(|kv| (kv.key, kv.value)).collect();
+                    check("pdelete::<Value>", format!("{kvs:?}"), format!("{:?}", vec![("t/p".to_owned(), v.clone())]));
+                    Ok(bad)
+                }
+                .await;
+                *d2.lock().expect("lock") = Some(r);
+            });
+            if !spin_until(|| done.lock().expect("lock").is_some(), 20_000).await {
+                return Err("the typed calls did not return".into());
+            }
+            let r = done.lock().expect("lock").take().expect("some");
+            rig.shutdown().await;
+            r
+        });
+        drop(rt);
+        n += 17;
+        let case = json!({"value": v, "index": vi});
+        samples.push(case.clone());
+        match res {
+            Err(e) if e.starts_with("MACHINERY") => rep.machinery(e),
+            Err(e) => rep.violation(format!("typed calls with value {v}: {e}"), case),
+            Ok(bad) => {
+                for b in bad {
+                    rep.violation(format!("value {v}: {b}"), case.clone());
+                }
+            }
+        }
+    }
+    (n, samples)
+}
